@@ -47,7 +47,7 @@ theorem writerPending_false {s : St} : writerPending s = false ↔ ∀ t ∈ s.t
 /-- a thread inside a section (reading or holding the write lock) can always step -/
 theorem inside_steps (s : St) (t : Thread) (hok : t.ok = true) (hin : t.rd = 1 ∨ t.w = .held) :
     (stepThread s t).isSome = true := by
-  rcases t with ⟨rd, w, prog, cur, seen⟩
+  rcases t with ⟨rd, w, prog, cur, seen, refused⟩
   simp only at hin
   rcases hin with h | h
   · subst h
@@ -76,7 +76,7 @@ theorem progress (s : St) (hok : ∀ t ∈ s.ths, t.ok = true) (hnd : ∃ t ∈ 
     have hrd : ∀ t ∈ s.ths, t.rd = 0 := by
       intro t ht
       have hk := hok t ht
-      rcases t with ⟨rd, w, prog, cur, seen⟩
+      rcases t with ⟨rd, w, prog, cur, seen, refused⟩
       match rd, hk with
       | 0, _ => rfl
       | 1, _ => exact absurd ⟨_, ht, Or.inl rfl⟩ h1
@@ -89,7 +89,7 @@ theorem progress (s : St) (hok : ∀ t ∈ s.ths, t.ok = true) (hnd : ∃ t ∈ 
       refine ⟨t, ht, ?_⟩
       have hk := hok t ht
       have hr0 := hrd t ht
-      rcases t with ⟨rd, w, prog, cur, seen⟩
+      rcases t with ⟨rd, w, prog, cur, seen, refused⟩
       simp only at hwt hr0
       subst hwt; subst hr0
       cases prog with
@@ -106,27 +106,29 @@ theorem progress (s : St) (hok : ∀ t ∈ s.ths, t.ok = true) (hnd : ∃ t ∈ 
         have a := hw t ht
         have b : t.w ≠ .waiting := fun hh => h2 ⟨t, ht, hh⟩
         cases hc : t.w <;> simp_all
-      rcases t with ⟨rd, w, prog, cur, seen⟩
+      rcases t with ⟨rd, w, prog, cur, seen, refused⟩
       simp only at hr0 hw0
       subst hr0; subst hw0
       cases prog with
       | nil => simp [Thread.done] at hd
       | cons o p =>
-        cases o <;> simp [Thread.ok, flatFrom] at hk <;> simp [stepThread, hwa, hwp]
+        cases o <;> simp [Thread.ok, flatFrom] at hk <;> simp [stepThread, hra, hwa, hwp]
 
 /-! ### `ok` is preserved -/
 
 theorem ok_stepThread (s : St) (t t' : Thread) (v : Nat) (hok : t.ok = true)
     (h : stepThread s t = some (t', v)) : t'.ok = true := by
-  rcases t with ⟨rd, w, prog, cur, seen⟩
+  rcases t with ⟨rd, w, prog, cur, seen, refused⟩
   cases prog with
   | nil => cases w <;> simp [stepThread] at h
   | cons o p =>
     rcases rd with _ | _ | n
     · cases w <;> cases o <;> simp [Thread.ok, flatFrom] at hok <;> simp [stepThread] at h <;>
-        inv_step h <;> simp [Thread.ok, hok]
+        (try split at h) <;> (try simp only [Option.some.injEq, Prod.mk.injEq] at h) <;>
+        inv_step h <;> simp [Thread.ok, flatFrom, hok]
     · cases w <;> cases o <;> simp [Thread.ok, flatFrom] at hok <;> simp [stepThread] at h <;>
-        inv_step h <;> simp [Thread.ok, hok]
+        (try split at h) <;> (try simp only [Option.some.injEq, Prod.mk.injEq] at h) <;>
+        inv_step h <;> simp [Thread.ok, flatFrom, hok]
     · cases w <;> simp [Thread.ok] at hok
 
 theorem step_cases {s s' : St} {i : Nat} (h : step s i = some s') :
@@ -171,11 +173,12 @@ theorem ok_init (progs : List (List Op)) (h : ∀ p ∈ progs, flat p = true) : 
 
 theorem measure_stepThread (s : St) (t t' : Thread) (v : Nat) (h : stepThread s t = some (t', v)) :
     t'.measure < t.measure := by
-  rcases t with ⟨rd, w, prog, cur, seen⟩
+  rcases t with ⟨rd, w, prog, cur, seen, refused⟩
   cases prog with
   | nil => cases w <;> simp [stepThread] at h
   | cons o p =>
     cases w <;> cases o <;> simp [stepThread] at h <;>
+      (try split at h) <;> (try simp only [Option.some.injEq, Prod.mk.injEq] at h) <;>
       inv_step h <;> simp [Thread.measure] <;> omega
 
 theorem sum_map_set (f : Thread → Nat) (l : List Thread) (i : Nat) (t t' : Thread) (hi : l[i]? = some t) :
@@ -282,13 +285,14 @@ theorem excl_init (progs : List (List Op)) : Excl (init progs) := by
 theorem stepThread_locks (s : St) (t t' : Thread) (v : Nat) (h : stepThread s t = some (t', v)) :
     (t'.rd ≤ t.rd ∨ (writerActive s = false ∧ t'.w = t.w)) ∧
     (t'.w = .held → t.w = .held ∨ readersActive s = false) := by
-  rcases t with ⟨rd, w, prog, cur, seen⟩
+  rcases t with ⟨rd, w, prog, cur, seen, refused⟩
   cases prog with
   | nil => cases w <;> simp [stepThread] at h
   | cons o p =>
     cases w <;> cases o <;> simp [stepThread] at h <;>
+      (try split at h) <;> (try simp only [Option.some.injEq, Prod.mk.injEq] at h) <;>
       first
-        | (obtain ⟨rfl, rfl⟩ := h; simp)
+        | (obtain ⟨rfl, rfl⟩ := h; simp_all)
         | (obtain ⟨hg, rfl, rfl⟩ := h; simp_all)
 
 theorem excl_step {s s' : St} {i : Nat} (h : step s i = some s') (hex : Excl s) : Excl s' := by
@@ -345,7 +349,7 @@ theorem view_stepThread (s : St) (t t' : Thread) (v : Nat) (hv : View t s.ver)
     (h : stepThread s t = some (t', v)) : v = s.ver ∧ View t' v := by
   obtain ⟨hok, hw, hrp, hview⟩ := hv
   have hok' := ok_stepThread s t t' v hok h
-  rcases t with ⟨rd, w, prog, cur, seen⟩
+  rcases t with ⟨rd, w, prog, cur, seen, refused⟩
   simp only at hw; subst hw
   cases prog with
   | nil => simp [stepThread] at h
@@ -356,6 +360,38 @@ theorem view_stepThread (s : St) (t t' : Thread) (v : Nat) (hv : View t s.ver)
     case lock => simp [readerProg] at hrp
     case unlock => simp [readerProg] at hrp
     case swapSel => simp [readerProg] at hrp
+    case trylock => simp [readerProg] at hrp
+    case gate =>
+      simp [stepThread] at h
+      obtain ⟨rfl, rfl⟩ := h
+      refine ⟨rfl, hok', rfl, hrp', ?_⟩
+      rcases hview with ⟨hc, hs, h1⟩ | ⟨x, hc, hs, hh⟩
+      · exact Or.inl ⟨hc, hs, by simpa [oneSection] using h1⟩
+      · refine Or.inr ⟨x, hc, hs, ?_⟩
+        rcases hh with ⟨a, b, hh⟩ | hh
+        · exact Or.inl ⟨a, b, by simpa [inSec] using hh⟩
+        · exact Or.inr (by simpa [noRead] using hh)
+    case tryrlock =>
+      simp [stepThread] at h
+      split at h
+      · -- acquired: as `rlock`
+        simp only [Option.some.injEq, Prod.mk.injEq] at h
+        obtain ⟨rfl, rfl⟩ := h
+        refine ⟨rfl, hok', rfl, hrp', ?_⟩
+        rcases hview with ⟨hc, hs, h1⟩ | ⟨x, hc, hs, hh⟩
+        · exact Or.inl ⟨hc, hs, by simpa [oneSection] using h1⟩
+        · refine Or.inr ⟨x, hc, hs, ?_⟩
+          rcases hh with ⟨hr1, _, _⟩ | hh
+          · simp only at hr1; subst hr1
+            simp [Thread.ok, flatFrom] at hok
+          · exact Or.inr (by simpa [noRead] using hh)
+      · -- refused: the thread ends here, having used what it had used
+        simp only [Option.some.injEq, Prod.mk.injEq] at h
+        obtain ⟨rfl, rfl⟩ := h
+        refine ⟨rfl, hok', rfl, by simp [readerProg], ?_⟩
+        rcases hview with ⟨hc, hs, _⟩ | ⟨x, hc, hs, _⟩
+        · exact Or.inl ⟨hc, hs, rfl⟩
+        · exact Or.inr ⟨x, hc, hs, Or.inr rfl⟩
     case rlock =>
       simp [stepThread] at h
       obtain ⟨_, rfl, rfl⟩ := h
@@ -414,11 +450,12 @@ theorem view_stepThread (s : St) (t t' : Thread) (v : Nat) (hv : View t s.ver)
 /-- a step that changes the version is taken by a thread holding the write lock -/
 theorem stepThread_ver (s : St) (t t' : Thread) (v : Nat) (hok : t.ok = true)
     (h : stepThread s t = some (t', v)) : v = s.ver ∨ t.w = .held := by
-  rcases t with ⟨rd, w, prog, cur, seen⟩
+  rcases t with ⟨rd, w, prog, cur, seen, refused⟩
   cases prog with
   | nil => cases w <;> simp [stepThread] at h
   | cons o p =>
     cases w <;> cases o <;> simp [stepThread] at h <;>
+      (try split at h) <;> (try simp only [Option.some.injEq, Prod.mk.injEq] at h) <;>
       (try (obtain ⟨_, rfl, rfl⟩ := h)) <;> (try (obtain ⟨rfl, rfl⟩ := h)) <;> simp
     -- swapSel outside a write section is not flat
     all_goals
@@ -476,6 +513,79 @@ theorem view_seen {t : Thread} {ver : Nat} (hv : View t ver) :
   rcases hview with ⟨_, hs, _⟩ | ⟨x, _, hs, _⟩
   · exact ⟨0, by simp [hs]⟩
   · exact ⟨x, hs⟩
+
+/-! ### refusal: only a `Try*` acquisition turns a caller away -/
+
+/-- the thread has not been refused and has no `Try*` acquisition ahead of it -/
+def Answered (t : Thread) : Prop := t.refused = false ∧ blocking t.prog = true
+
+theorem blocking_cons {o : Op} {p : List Op} (h : blocking (o :: p) = true) :
+    o ≠ .tryrlock ∧ o ≠ .trylock ∧ blocking p = true := by
+  simp only [blocking, List.all_cons, Bool.and_eq_true, bne_iff_ne, ne_eq] at h ⊢
+  exact ⟨h.1.1, h.1.2, h.2⟩
+
+theorem answered_stepThread (s : St) (t t' : Thread) (v : Nat) (ha : Answered t)
+    (h : stepThread s t = some (t', v)) : Answered t' := by
+  obtain ⟨hr, hb⟩ := ha
+  rcases t with ⟨rd, w, prog, cur, seen, refused⟩
+  simp only at hr hb; subst hr
+  cases prog with
+  | nil => cases w <;> simp [stepThread] at h
+  | cons o p =>
+    obtain ⟨h1, h2, hb'⟩ := blocking_cons hb
+    cases w <;> cases o <;> simp at h1 h2 <;> simp [stepThread] at h <;>
+      inv_step h <;> first | exact ⟨rfl, hb'⟩ | exact ⟨rfl, hb⟩
+
+theorem answered_all_step {s s' : St} {i : Nat} (h : step s i = some s') (ha : ∀ t ∈ s.ths, Answered t) :
+    ∀ t ∈ s'.ths, Answered t := by
+  obtain ⟨t, t', v, hi, hst, rfl⟩ := step_cases h
+  intro u hu
+  rcases List.mem_or_eq_of_mem_set hu with hu | rfl
+  · exact ha u hu
+  · exact answered_stepThread s t u v (ha t (List.mem_of_getElem? hi)) hst
+
+theorem answered_all_exec {s s' : St} {sched : List Nat} (h : exec s sched = some s') (ha : ∀ t ∈ s.ths, Answered t) :
+    ∀ t ∈ s'.ths, Answered t := by
+  induction sched generalizing s with
+  | nil => simp [exec] at h; subst h; exact ha
+  | cons i is ih =>
+    simp only [exec] at h
+    cases hs : step s i with
+    | none => simp [hs] at h
+    | some s1 => simp only [hs] at h; exact ih h (answered_all_step hs ha)
+
+theorem answered_init (progs : List (List Op)) (h : ∀ p ∈ progs, blocking p = true) :
+    ∀ t ∈ (init progs).ths, Answered t := by
+  intro t ht
+  simp only [init, List.mem_map] at ht
+  obtain ⟨p, hp, rfl⟩ := ht
+  exact ⟨rfl, h p hp⟩
+
+/-- thread `j` stays answered whatever the other threads are and do -/
+theorem answered_step {s s' : St} {i j : Nat} {t : Thread} (h : step s i = some s')
+    (hj : s.ths[j]? = some t) (ha : Answered t) : ∃ t', s'.ths[j]? = some t' ∧ Answered t' := by
+  obtain ⟨u, u', v, hi, hst, rfl⟩ := step_cases h
+  by_cases hij : i = j
+  · subst hij
+    have hut : u = t := by rw [hi] at hj; exact Option.some.inj hj
+    subst hut
+    have hlt : i < s.ths.length := by
+      rcases List.getElem?_eq_some_iff.mp hi with ⟨hlt, _⟩; exact hlt
+    exact ⟨u', by simp [hlt], answered_stepThread s u u' v ha hst⟩
+  · exact ⟨t, by simp [List.getElem?_set_ne hij, hj], ha⟩
+
+theorem answered_exec {s s' : St} {sched : List Nat} {j : Nat} {t : Thread} (h : exec s sched = some s')
+    (hj : s.ths[j]? = some t) (ha : Answered t) : ∃ t', s'.ths[j]? = some t' ∧ Answered t' := by
+  induction sched generalizing s t with
+  | nil => simp [exec] at h; subst h; exact ⟨t, hj, ha⟩
+  | cons i is ih =>
+    simp only [exec] at h
+    cases hs : step s i with
+    | none => simp [hs] at h
+    | some s1 =>
+      simp only [hs] at h
+      obtain ⟨t1, hj1, ha1⟩ := answered_step hs hj ha
+      exact ih h hj1 ha1
 
 /-! ### the plain mutex: balanced programs are flat -/
 
